@@ -389,14 +389,17 @@ func (c *Ctx) Finish() int {
 	}
 	fmt.Printf("%s tier=%s evaluations=%d nontrivial=%d states=%d transitions=%d exhaustive=%v wall=%.1fs violations=%d known=%d\n",
 		c.Prop, c.Tier, c.evals, c.nontrivial, c.states, c.trans, !c.capHit, wall, violations, knownHits)
-	if len(c.harnessErr) > 0 {
-		for _, e := range c.harnessErr {
+	for i, e := range c.harnessErr {
+		if i < 20 {
 			fmt.Println("HARNESS-ERROR:", e)
 		}
-		return 2
 	}
 	if violations > 0 {
+		// a reproduced violation stands even if other cases behaved non-deterministically (often a symptom of the same defect)
 		return 1
+	}
+	if len(c.harnessErr) > 0 {
+		return 2
 	}
 	return 0
 }
